@@ -389,6 +389,25 @@ func fixedC14(r *Rec, tier string, shard, nshards int) []*Case {
 				r.NonTrivial("s\x00"+in, nil)
 			}
 		}
+		// ---- shorthand values just under the component bound, with components that are expensive for
+		// the sub-handlers (comma lists, function calls), four declarations in one attribute (2-10 KB)
+		for _, prop := range []string{"font", "background", "transition", "animation", "grid", "border", "list-style", "flex"} {
+			for _, piece := range []string{", ", ",,,,,,,, ", "rgb(1,1,1) ", "a,a,a,a ", "inherit,inherit,inherit,inherit ", "initial / ", "1px ", "a "} {
+				decl := prop + ": " + rep(piece, 255) + "!; "
+				in := `<p style="` + rep(decl, 4) + `">x</p>`
+				c := &Case{Kind: "family", Input: BStr(in)}
+				res := timedCall(tokenBudget, func() string { return p.Sanitize(in) })
+				evals++
+				if res.panicked != nil {
+					hardFail(c, r, fmt.Sprintf("C14: Sanitize panics on %s: %v", q(trunc(in, 120)), res.panicked))
+				}
+				if res.timedOut {
+					hardFail(c, r, fmt.Sprintf("C14: Sanitize does not return within %v on the %d-byte input %s", tokenBudget, len(in), q(trunc(in, 120))))
+				}
+				record("sanitize_style_under_bound:"+prop, 255, len(in), res.elapsed)
+				r.NonTrivial("u\x00"+in, nil)
+			}
+		}
 		// ---- comma/space separated CSS lists: every shorthand handler is (after the D4 repair)
 		// quadratic to cubic in the number of components, which the property allows; sizes are kept
 		// where that is ~1.5 s at most (n = 1000), so that only a change of complexity class trips the
